@@ -1349,12 +1349,16 @@ fn io_declaration_statement_to_asg_stmt(
     type_decl: &synast::IODeclarationStatement,
     context: &mut Context,
 ) -> asg::Stmt {
-    if type_decl.array_type().is_some() {
-        panic!("Array types are not supported yet in the ASG");
-    }
-    let scalar_type = type_decl.scalar_type().unwrap();
-    // Assume that input / ouput variables are not constant.
-    let typ = scalar_type_to_type(&scalar_type, false, context);
+    let typ = if type_decl.array_type().is_some() {
+        // Array types are not supported yet in the ASG. Report this as for a classical
+        // declaration.
+        context.insert_error(NotImplementedError, type_decl);
+        Type::ToDo
+    } else {
+        let scalar_type = type_decl.scalar_type().unwrap();
+        // Assume that input / ouput variables are not constant.
+        scalar_type_to_type(&scalar_type, false, context)
+    };
     let name_str = type_decl.name().unwrap().string();
     let symbol_id = context.new_binding(name_str.as_ref(), &typ, &type_decl.name().unwrap());
     if type_decl.input_token().is_some() {
